@@ -24,6 +24,8 @@ theorem inv_step (p : Policy) (hs : p.Safe = true) (s : St) (o : Op) (h : Inv p 
     cases co <;> cases ip <;> simp only [step] <;> constructor <;> simp_all [write] <;> grind
   | userNew v =>
     simp only [step]; constructor <;> simp_all [write] <;> grind
+  | rebind v =>
+    simp only [step]; constructor <;> simp_all [write] <;> grind
   | load k =>
     simp only [step]
     cases hk : user[k]? with
